@@ -1470,7 +1470,10 @@ udp_resolv_cb(void *arg)
 	}
 
 	udp_pipe_schedule(p);
-	udp_ep_start(ep);
+	if (!ep->started) {
+		// (on a reconnect the receiver is already running)
+		udp_ep_start(ep);
+	}
 
 	// Send out the connection request.  We don't complete
 	// the user aio until we confirm a connection, so that
@@ -1495,12 +1498,12 @@ udp_ep_connect(void *arg, nni_aio *aio)
 		nni_aio_finish_error(aio, NNG_ECLOSED);
 		return;
 	}
-	if (ep->started) {
+	if (!nni_list_empty(&ep->connaios)) {
+		// only one connection attempt at a time
 		nni_mtx_unlock(&ep->mtx);
 		nni_aio_finish_error(aio, NNG_EBUSY);
 		return;
 	}
-	NNI_ASSERT(nni_list_empty(&ep->connaios));
 	ep->dialer = true;
 
 	nni_list_append(&ep->connaios, aio);
